@@ -4,6 +4,16 @@ import math
 import numpy as np
 
 
+CASCADES = {
+    "depth1": (5.0, [(3.0, [0.5, 0.25]), 1.0]),
+    "depth2": (5.0, [(3.5, [(1.5, [0.5, 0.25]), 0.75]), 1.0]),
+    "depth2b": (5.0, [1.0, (3.5, [0.75, (1.5, [0.5, 0.25])])]),
+    "siblings": (6.0, [(2.0, [0.5, 0.25]), (3.0, [0.75, 1.0])]),
+    "depth3": (8.0, [0.125, (6.0, [(4.0, [0.375, (2.5, [1.0, (1.25, [0.25, 0.5])])]), 0.625])]),
+    "mixed": (9.0, [(3.0, [0.5, 0.25, 0.75]), (4.5, [(2.0, [0.5, 1.0]), 0.125, 1.5])]),
+}
+
+
 def conformance(tier):
     import tensorflow as tf
     from tf_pwa import phasespace as ps
@@ -90,6 +100,42 @@ def replay(p):
             lam = (g("M", 2.0) ** 2 - (g("a", 0.5) + g("b", 0.5)) ** 2) * (g("M", 2.0) ** 2 - (g("a", 0.5) - g("b", 0.5)) ** 2)
             bad = q > qx * (1 + 1e-9) + 1e-12 or q < 0 or abs(4 * g("M", 2.0) ** 2 * q * q - lam) > 1e-7 * (1 + abs(lam))
             return {"reproduced": bool(bad), "q": q, "qx": qx}
+        if kind == "concrete":
+            n = p["n"]
+            M = 5.279
+            ms = [0.139, 0.494] if n == 2 else [0.139, 0.139, 0.494]
+            out = ps.PhaseSpaceGenerator(M, ms).generate(200)
+            arr = [np.asarray(x.numpy()) for x in out]
+            tot = sum(arr)
+            err = float(np.max(np.abs(tot - np.array([M, 0, 0, 0]))))
+            for a_, mk in zip(arr, ms):
+                err = max(err, float(np.max(np.abs(a_[:, 0] ** 2 - np.sum(a_[:, 1:] ** 2, axis=-1) - mk * mk))))
+            return {"reproduced": bool(err > 1e-9), "error_magnitude": err, "what": "largest deviation of the momentum sum from (M,0,0,0) / of a mass shell over 200 events, masses as Python floats"}
+        if kind == "cascade":
+            # the real generator on the structure: mass shells, momentum sum and fixed intermediate masses
+            M, mi = CASCADES[p["shape"]]
+            out = ps.ChainGenerator(M, mi).generate(50)
+            worst = [0.0]
+
+            def m_of(x):
+                x = np.asarray(x)
+                return np.sqrt(np.maximum(x[:, 0] ** 2 - np.sum(x[:, 1:] ** 2, axis=-1), 0))
+
+            def walk(tree, res):
+                tot = 0
+                for t, r_ in zip(tree[1], res):
+                    if isinstance(t, (tuple, list)):
+                        sub = walk(t, r_)
+                        worst[0] = max(worst[0], float(np.max(np.abs(m_of(sub) - t[0]))))
+                    else:
+                        sub = np.asarray(r_.numpy() if hasattr(r_, "numpy") else r_)
+                        worst[0] = max(worst[0], float(np.max(np.abs(m_of(sub) - t))))
+                    tot = tot + sub
+                return tot
+
+            tot = walk((M, mi), out)
+            worst[0] = max(worst[0], float(np.max(np.abs(tot - np.array([M, 0, 0, 0])))))
+            return {"reproduced": bool(worst[0] > 1e-6), "error_magnitude": worst[0], "what": "largest deviation of a mass shell, a fixed intermediate mass or the momentum sum over 50 events"}
         if kind == "count":
             return {"reproduced": False, "error": "count replay: see ps.count (model of the refill loop); run generate() with a patched flatten_mass"}
         if kind in ("step", "step_i", "angles"):
